@@ -14,8 +14,11 @@ CONSTANTS
   Pres <- T_Pres
   PreSpecSrcs <- T_PreSpecSrcs
   AliasAttrs = FALSE
+  HistStride = 5
+  ReadCache = FALSE
 CONSTRAINT Export
 INVARIANT ImplClipRefinesReq
+INVARIANT ImplRecIsFile
 INVARIANT ImplProduces
 INVARIANT ImplTimeAxis
 INVARIANT ImplFreqAxis
